@@ -986,7 +986,10 @@ def elliprg(ctx, x, y, z):
         T1 = 0.5*z*ctx.elliprf(x,y,z)
         T2 = -0.5*(x-z)*(y-z)*ctx.elliprd(x,y,z)/3
         T3 = 0.5*ctx.sqrt(x)*ctx.sqrt(y)/ctx.sqrt(z)
-        return T1,T2,T3
+        # sum_accurately stops at the first term that is negligible compared
+        # to the partial sum, so the terms must come in decreasing magnitude
+        # (T2 vanishes for x ~ z or y ~ z, T3 for small x or y)
+        return sorted([T1,T2,T3], key=abs, reverse=True)
     return ctx.sum_accurately(terms)
 
 
